@@ -38,6 +38,23 @@ KINDS_ADD = """  - ADD a correct small feature next to the mechanism: a new publ
   - declaration-level edits that keep semantics: reorder fields where drop order does not matter (say why), reorder trait methods / impl blocks, change a generic
     parameter name, turn a magic number into a named const with the same value, turn an associated const into a `const fn` call with the same value.
 """
+KINDS_CONTRACT = """  - change the REPRESENTATION of a value that crosses a function / layer boundary CONSISTENTLY on both sides (producer AND every consumer), keeping its meaning:
+    e.g. a function that answers `len_before` now answers `len_after` and every caller subtracts 1 where it used the old value (or the reverse); `bool` answer <-> a small
+    two-variant enum or `Option<()>` / `Result<(), ()>`; `Option<(a, b)>` <-> a tiny named struct; `u32` id <-> `usize` index with the casts moved; a tuple's components
+    reordered with all users updated; a callback that received `(id)` now receives `(id, &slot)` and ignores the second; an out-parameter turned into a return value,
+  - swap a primitive for an EQUIVALENT one with the same (or stronger) memory orderings: `swap(true, Acquire)` tested for false <-> `compare_exchange(false, true, Acquire, Relaxed).is_ok()`;
+    `fetch_add(1, o)` <-> `fetch_update(o, o, |v| Some(v.wrapping_add(1))).unwrap()`; `compare_exchange_weak` in a retry loop <-> `compare_exchange` in the same loop;
+    `lock()` <-> a `while !try_lock() { spin_loop() }` loop; `load` + branch + CAS retry loop <-> `fetch_update`; `store(false, Release)` <-> `swap(false, Release)` ignoring the answer;
+    `AtomicU32::fetch_sub(1, o)` <-> `fetch_add(u32::MAX, o)` (wrapping), `parking_lot` guard scopes spelled with explicit `drop(guard)` at the same point,
+  - move WHERE a trait method's body lives without changing what runs: a default method in a trait (types.rs / meta_publisher / meta_subscriber / meta_container) overridden by
+    an identical body in one impl, or identical bodies in the impls hoisted into a trait default; an inherent method turned into a trait method or the reverse;
+    a generic const read through an associated const / a `const fn`,
+  - change HOW a callback is delivered while keeping WHEN and HOW OFTEN: closure parameter <-> `impl Fn` generic <-> `&dyn Fn`; a closure that is called once on each branch
+    <-> called once after the branches join when nothing in between can observe the difference; `FnOnce` boxed vs unboxed,
+  - edits in glue / support code that keep semantics: constructors that build fields in another order (when no field's initialiser depends on another), `Default` <-> `new()`,
+    Drop impls that do the same work through a helper, `ogre_sync::lock/unlock` re-expressed, `Instruments` predicates re-expressed with the same truth table
+    (e.g. `x & MASK != 0` <-> `x & MASK > 0` <-> `(x & MASK) == MASK` ONLY for single-bit masks), prelude aliases spelled through an intermediate alias.
+"""
 print(f"""You are helping to test a static verification tool for false alarms. You have your own scratch git worktree of a Rust library
 (zertyz/reactive-mutiny: async reactive event library with Uni/Multi channels over custom lock-free queues, pool allocators, OgreArc refcounting,
 an mmap log channel and stream executors) at {wt}. Work ONLY inside {wt} and {wt}-out. Never read or write /repo or /verif.
@@ -50,7 +67,7 @@ analysis of the source. We need to know whether it raises alarms on code where t
 
 YOUR TASK: produce EIGHT different, independent, realistic BEHAVIOUR-PRESERVING changes to the library's non-test source under {wt}/src, each touching
 code at or near the anchors above (the mechanisms the properties rest on), such as a maintainer would make in ordinary maintenance:
-{KINDS_ADD if style=='additive' else KINDS_MAINT}Each change must be SEMANTICALLY NEUTRAL with respect to every property above under EVERY interleaving, input and history (do not weaken orderings,
+{KINDS_ADD if style=='additive' else KINDS_CONTRACT if style=='contract' else KINDS_MAINT}Each change must be SEMANTICALLY NEUTRAL with respect to every property above under EVERY interleaving, input and history (do not weaken orderings,
 do not move a read/write across a synchronisation point, do not change which value a guard compares, do not change when wakes / releases / publications
 happen relative to each other except by adding strictly more wakes). If in doubt whether an edit is neutral, pick another one. Aim for variety across
 the eight (different files, different kinds of refactor); at least half should touch the *core* mechanism functions named in the anchors, not only
